@@ -134,6 +134,7 @@ func main() {
 	maxReplay := flag.Int("maxreplay", 3, "max native replays per (label, known-id)")
 	stripP2P := flag.Bool("stripp2p", true, "overlay a copy of pkg/p2p/p2p.go whose Run body is stripped (quic-go does not build)")
 	pin := flag.String("pin", "", "concrete run: JSON file name->[values] pinning every nondet (translator validation)")
+	clockFiles := flag.String("clockfiles", "", "comma separated source files (relative to -mod) in which time.Now()/time.Since( are redirected to the harness clock zzverif.Now()/zzverif.Since( (mechanical copy, used by the symbolic AND the native build)")
 	exact := flag.Bool("exactfmt", false, "render %d of symbolic integers exactly (digit variables) instead of opaquely")
 	summ := flag.String("summary", "", "comma separated summaries to enable (vaaid = (*VAAID).Bytes as an injective encoding of its fields)")
 	flag.Parse()
@@ -183,6 +184,18 @@ func main() {
 			}
 			addOverlay(p2pSrc, out)
 		}
+	}
+	for _, cf := range strings.Split(*clockFiles, ",") {
+		if cf == "" {
+			continue
+		}
+		src := filepath.Join(*repoMod, cf)
+		out := filepath.Join(*workDir, "clock_"+strings.ReplaceAll(cf, "/", "_"))
+		if err := rewriteClock(src, out, *repoMod); err != nil {
+			fmt.Println("INCONCLUSIVE cannot redirect the clock in", cf, err)
+			os.Exit(2)
+		}
+		addOverlay(src, out)
 	}
 	for _, r := range replaces {
 		kv := strings.SplitN(r, "=", 2)
@@ -268,6 +281,9 @@ func main() {
 			en, *restrictS, e.stats.paths, e.stats.forks, e.stats.steps, e.stats.asserts, e.stats.assertUnsat, e.stats.assertTrivial, e.stats.assertSat, e.stats.feas, solver.Queries, solver.Fallbacks, solver.Time.Seconds(), wall.Seconds())
 		fmt.Printf("   status: %v  reached: %v\n", res.Status, res.Reached)
 		fmt.Printf("   query ms: p50=%.1f p99=%.1f max=%.1f cache-hits=%d\n", res.QueryP50ms, res.QueryP99ms, res.QueryMaxms, e.stats.cacheHits)
+		if n := solver.Errors; n > 0 {
+			e.unsupported[fmt.Sprintf("solver reported %d (error ...) lines; affected queries were re-decided in a fresh context or counted unknown", n)] = n
+		}
 		if len(e.unsupported) > 0 {
 			fmt.Println("   UNSUPPORTED / INCONCLUSIVE:")
 			for k, v := range e.unsupported {
